@@ -649,6 +649,11 @@ def run(ctx: Ctx):
     ctx.guarded(last_mode, ctx)
     res.rule("MASK-FORWARD", "a driver that takes a `mask` hands it to the routine that computes its reported error (error_calc): every such call binds the callee's `mask` to (something computed from) the driver's own mask, never to a constant or the default -- with missing values the norm shortcut of the error is not valid and the full masked residual has to be taken", floor=4)
     ctx.guarded(mask_forward, ctx)
+    res.rule("REPORT-PURE", "the reported error is a function of the data, the mask and the current model only: it has no data dependence on a penalty option of the driver (sparsity / ridge / regularisation coefficients) other than through the model itself. A report that adds the penalty term is the value of the penalised objective, not the reconstruction error of the returned decomposition", floor=10)
+    for qname in DRIVERS:
+        ctx.guarded(report_pure, ctx, qname)
+    res.rule("SHORTCUT-PREMISE", "HOOI reports sqrt(|norm(X)^2 - norm(core)^2|), which is the residual only for orthonormal factors: every pass of the sweep over the modes stores singular vectors into the factor of its mode -- the store is reached on every path through the loop body (no `continue` / conditional skip before it), so that a user-supplied, non-orthonormal start is orthonormalised before the first report", floor=1)
+    ctx.guarded(shortcut_premise, ctx)
     res.rule("ELEMENT-VS-POSITION", "in every driver the loop variable of a sweep over a *filtered* list of mode numbers is only compared with elements of that list (or with mode numbers), never with a position in / the length of the list", floor=1)
     ctx.guarded(element_vs_position, ctx)
     res.stats["drivers"] = list(DRIVERS)
@@ -744,3 +749,125 @@ def mask_forward(ctx: Ctx):
                 ctx.finding("MASK-FORWARD", f, c, f"{f.name} takes a `mask` but calls {g.name} with mask={src(a) if a is not None else '<default None>'}: the reported error is then computed as if no entry were missing (norm shortcut on imputed data), so it is not the error of the returned decomposition on the observed entries", construct=f"{f.name} -> {g.name}: mask={src(a) if a is not None else '<default>'}")
     if n == 0:
         raise AnalysisError("MASK-FORWARD: no driver with a `mask` parameter calls an error routine any more; cannot decide")
+
+
+# ---------------------------------------------------------------------------------
+# REPORT-PURE: the reported error does not read the penalty options
+# ---------------------------------------------------------------------------------
+import re as _re
+
+_PENALTY = _re.compile(r"sparsity|sparse|ridge|penal|regulari|(^|_)reg(_|$)|lambda|l1_|l2_|(^|_)coef")
+# documented: robust CP reports the residual after removing its sparse component
+_REPORT_MAY_READ = {"tensorly.decomposition._cp.parafac": {"sparsity"}}
+
+
+def report_pure(ctx: Ctx, qname: str):
+    repo, res = ctx.repo, ctx.res
+    row = DRIVERS[qname]
+    f = driver(repo, qname)
+    sites = report_sites(f, row)
+    if not sites:
+        return
+    penalties = {p for p in f.all_params if _PENALTY.search(p)} - _REPORT_MAY_READ.get(qname, set())
+    stop = set(row["model"]) | {row["data"]} | set(row.get("norm", []))
+    # flow-insensitive definitions: name -> names its definitions read
+    defs = {}
+    for st in own_scope_nodes(f.node):
+        tg = val = None
+        if isinstance(st, ast.Assign):
+            tg, val = st.targets, st.value
+        elif isinstance(st, ast.AugAssign):
+            tg, val = [st.target], st.value
+        elif isinstance(st, (ast.For, ast.comprehension)):
+            tg, val = [st.target], st.iter
+        if tg is None:
+            continue
+        reads = names_in(val)
+        for t in tg:
+            for x in flat_targets(t):
+                b = base_name(x)
+                if b:
+                    defs.setdefault(b, set()).update(reads)
+                    if isinstance(x, ast.Subscript):
+                        defs[b].update(names_in(x.slice))
+    for kind, node, val in sites:
+        if val is None:
+            continue
+        seen, work = set(), list(names_in(val))
+        via = {}
+        while work:
+            nm = work.pop()
+            if nm in seen or nm in stop:
+                continue
+            seen.add(nm)
+            for r in defs.get(nm, ()):
+                if r not in seen:
+                    via.setdefault(r, nm)
+                    work.append(r)
+        hit = sorted(seen & penalties)
+        res.instance("REPORT-PURE", f"{qname}: {kind}@{src(node)[:40]}", sample={"penalty_options": sorted(penalties), "read_by_report": hit, "ok": not hit})
+        for p_ in hit:
+            chain = [p_]
+            while chain[-1] in via and len(chain) < 8:
+                chain.append(via[chain[-1]])
+            ctx.finding("REPORT-PURE", f, node, f"the value reported by `{src(node)[:60]}` depends on the penalty option `{p_}` directly (through {' -> '.join(chain)}), not only through the model ({', '.join(row['model'])}): what is reported is the penalised objective, not the relative reconstruction error of the iterate, so the last reported value is not the error of the returned decomposition whenever `{p_}` is set", construct=f"{f.name}: reported error reads {p_}")
+
+
+# ---------------------------------------------------------------------------------
+# SHORTCUT-PREMISE: HOOI's norm shortcut needs every factor to come out of an SVD
+# ---------------------------------------------------------------------------------
+def shortcut_premise(ctx: Ctx):
+    from ..inline import with_inlined
+
+    repo, res = ctx.repo, ctx.res
+    qname = "tensorly.decomposition._tucker.partial_tucker"
+    f = with_inlined(repo, repo.func(qname))  # the sweep may live in a private helper
+    row = DRIVERS[qname]
+    fs = next((m for m in row["model"] if "factor" in m), None)
+    if fs is None:
+        raise AnalysisError("SHORTCUT-PREMISE: the driver table has no factor list for partial_tucker")
+    # the shortcut is in use: a report computed from norm ** 2 - norm(core) ** 2
+    shortcut = [n for n in own_scope_nodes(f.node) if isinstance(n, ast.BinOp) and isinstance(n.op, ast.Sub) and "norm" in src(n) and "**" in src(n)]
+    if not shortcut:
+        res.instance("SHORTCUT-PREMISE", f"{qname}: the error is no longer computed by the norm shortcut", nontrivial=False)
+        return
+    loops = []
+    for lp in own_scope_nodes(f.node):
+        if isinstance(lp, ast.For) and any(isinstance(x, ast.Assign) and any(isinstance(t, ast.Subscript) and is_name_(t.value, fs) for t in x.targets) for x in ast.walk(lp)):
+            # innermost loops only
+            if not any(isinstance(y, ast.For) and y is not lp and any(isinstance(x, ast.Assign) and any(isinstance(t, ast.Subscript) and is_name_(t.value, fs) for t in x.targets) for x in ast.walk(y)) for y in ast.walk(lp)):
+                loops.append(lp)
+    if not loops:
+        raise AnalysisError(f"SHORTCUT-PREMISE: no sweep of {qname} stores into `{fs}` any more; cannot decide")
+
+    def always_stores(block):
+        """every path through the block reaches a store into fs[...] before it can leave the pass"""
+        for st in block:
+            if isinstance(st, ast.Assign) and any(isinstance(t, ast.Subscript) and is_name_(t.value, fs) for t in st.targets):
+                return True, None
+            if isinstance(st, ast.If):
+                a, wa = always_stores(st.body)
+                b, wb = always_stores(st.orelse) if st.orelse else (False, None)
+                if a and b:
+                    return True, None
+                # a branch that does not store must not leave the pass either
+                for blk in (st.body, st.orelse):
+                    for x in blk:
+                        for y in ast.walk(x):
+                            if isinstance(y, (ast.Continue, ast.Break, ast.Return)):
+                                return False, y
+                continue
+            for y in ast.walk(st):
+                if isinstance(y, (ast.Continue, ast.Break, ast.Return)) and not isinstance(st, (ast.For, ast.While)):
+                    return False, y
+        return False, None
+
+    for lp in loops:
+        ok, where = always_stores(lp.body)
+        res.instance("SHORTCUT-PREMISE", f"{qname}: sweep `for {src(lp.target)} in {src(lp.iter)[:30]}`", sample={"every_pass_stores_singular_vectors": ok})
+        if not ok:
+            ctx.finding("SHORTCUT-PREMISE", f, where if where is not None else lp, f"a pass of the sweep `for {src(lp.target)} in {src(lp.iter)[:40]}` can end without storing singular vectors into `{fs}` ({'`' + src(where)[:30] + '` at line ' + str(where.lineno) if where is not None else 'the store is conditional'}): a factor that was supplied by the caller (not orthonormal) then stays as it is, and the reported error sqrt(|norm(X)^2 - norm(core)^2|) is not the residual of the returned decomposition", construct=f"partial_tucker: a sweep pass may skip the factor update")
+
+
+def is_name_(e, name):
+    return isinstance(e, ast.Name) and e.id == name
